@@ -591,6 +591,61 @@ std::string handle(const std::string& op, Args& a)
 			o << (int) e1 << (int) e2 << (int) e3 << (int) e4;
 		});
 	}
+	if(op == "c04.crossdot")	 // Cross(u,v) == skew(u)*v and Dot(p,q) == row(p)*column(q), zero slack
+	{
+		Vector u = rd_vec(a), v = rd_vec(a), p = rd_vec(a), q = rd_vec(a);
+		a.end();
+		return run_if(u.Size() == 3 && v.Size() == 3 && p.Size() == q.Size() && p.Size() > 0, [&](Out& o) {
+			Matrix S(std::vector<std::vector<double>>{{0.0, -u[2], u[1]}, {u[2], 0.0, -u[0]}, {-u[1], u[0], 0.0}});
+			Vector c = u.Cross(v), s = S * v;
+			bool e1 = c.Size() == 3 && s.Size() == 3 && c[0] == s[0] && c[1] == s[1] && c[2] == s[2];
+			Matrix row(1, p.Size()), col(q.Size(), 1);
+			for(unsigned i = 0; i < p.Size(); i++)
+			{
+				row[0][i] = p[i];
+				col[i][0] = q[i];
+			}
+			Matrix d = row * col;
+			bool e2	 = d.Rows() == 1 && d.Columns() == 1 && d[0][0] == p.Dot(q) && d[0][0] == p * q;
+			o << (int) e1 << (int) e2;
+		});
+	}
+	if(op == "c04.alias")	// the operand is the object itself
+	{
+		std::string k = a.tok();
+		Matrix A	  = rd_mat(a);
+		Vector v	  = rd_vec(a);
+		a.end();
+		need(k == "pa" || k == "ma" || k == "ss" || k == "vs" || k == "vv");
+		bool conf = (k == "ss") ? A.Rows() == A.Columns() : (k == "vs" ? v.Size() == A.Rows() : true);
+		return run_if(conf && A.Rows() > 0, [&](Out& o) {
+			if(k == "pa")
+			{
+				A += A;
+				put(o, A);
+			}
+			else if(k == "ma")
+			{
+				A -= A;
+				put(o, A);
+			}
+			else if(k == "ss")
+			{
+				A = A * A;
+				put(o, A);
+			}
+			else if(k == "vs")
+			{
+				v = v * A;
+				put(o, v);
+			}
+			else
+			{
+				v += v;
+				put(o, v);
+			}
+		});
+	}
 	throw BadOp();
 }
 }	// namespace hz
